@@ -513,7 +513,7 @@ async fn run(case: Json, tol: Tolerate) -> Outcome {
                 }
                 Some(attrs) => {
                     if must_withdraw {
-                        let a0 = applied.iter().find(|a| !a.starts_with("dup")).cloned().unwrap_or_default();
+                        let a0 = applied.iter().find(|a| !a.starts_with("dup") && !a.starts_with("tlv-soup")).cloned().unwrap_or_default();
                         fail!(format!("route-kept-despite-treat-as-withdraw/{}", a0), "op {} {}: {} is in the RIB after corruptions {:?} (role {}, two-byte {})", opi, op.to_compact(), k, applied, role.name(), two_byte);
                     }
                     for (code, val) in &faulty {
